@@ -35,6 +35,8 @@ CUTS = [
     "functools.lru_cache caches of the package cleared at the start of every path",
     "constants.COMPARISON_OPERATORS[Is/IsNot] (operator.is_/is_not) replaced by proxy-aware identity "
     "(bool/None singletons modelled; identity between numbers is Unsupported)",
+    "constants.COMPARISON_OPERATORS[In/NotIn] decide membership of / in hash-based containers holding proxies by "
+    "equality with every element (a proxy's hash is a constant in rule code)",
 ]
 
 
@@ -159,6 +161,8 @@ class Loader(importlib.machinery.SourceFileLoader):
             ops = dict(d["COMPARISON_OPERATORS"])
             ops[ast.Is] = sym.sym_is
             ops[ast.IsNot] = sym.sym_is_not
+            ops[ast.In] = sym.sym_contains
+            ops[ast.NotIn] = sym.sym_not_contains
             d["COMPARISON_OPERATORS"] = types.MappingProxyType(ops)
         if module.__name__ == "pyrefact.symbolic_math":
             real = d.get("sympy")
